@@ -612,7 +612,7 @@ impl<'a> Compiler<'a> {
             }
             CardBody::Repeat(rep) => {
                 self.current_index.push_subindex(0);
-                self.compile_subexpr(slice::from_ref(&rep.n))?;
+                self.process_card(&rep.n)?;
                 self.current_index.pop_subindex();
                 let i = &rep.i;
                 let repeat = &rep.body;
@@ -934,8 +934,13 @@ impl<'a> Compiler<'a> {
                 self.push_instruction(Instruction::PopTable);
             }
             CardBody::DynamicCall(jump) => {
-                self.compile_subexpr(jump.args.0.as_slice())?;
-                self.current_index.push_subindex(jump.args.0.len() as u32);
+                // child 0 is the function, the arguments follow (see Card::get_child)
+                for (i, card) in jump.args.0.iter().enumerate() {
+                    self.current_index.push_subindex(i as u32 + 1);
+                    self.process_card(card)?;
+                    self.current_index.pop_subindex();
+                }
+                self.current_index.push_subindex(0);
                 self.process_card(&jump.function)?;
                 self.current_index.pop_subindex();
                 self.push_instruction(Instruction::CallFunction);
